@@ -29,7 +29,7 @@ def cases():
         allc, _ = classlemmas.all_cases(conv)
         _CASES = {}
         for c in classlemmas.wrapper_cases(allc) + list(classlemmas.HAND_CASES):
-            c.cands = classlemmas.alias_candidates(c) + ["x-future", "futureHint", ""]
+            c.cands = classlemmas.alias_candidates(c) + _near_spellings(c) + ["x-future", "futureHint", ""]
             c.tmin = classlemmas.SPEC_sample_for(c, maximal=False)
             c.tmax = classlemmas.SPEC_sample_for(c, maximal=True)
             c.hook = conv.get_structure_hook(c.cls)
@@ -37,6 +37,19 @@ def cases():
             c.nodes_min, c.nodes_max = _object_nodes(c.tmin), _object_nodes(c.tmax)
             _CASES[c.name] = c
     return _CASES
+
+
+def _near_spellings(c):
+    """undeclared names one edit away from a declared one (a letter dropped, doubled or swapped with its neighbour):
+    the 'corrected spelling' / 'legacy spelling' a tolerant hand-written hook might also look for"""
+    declared = set(c.props)
+    out = []
+    for w in c.props:
+        for i in range(len(w)):
+            for cand in (w[:i] + w[i + 1 :], w[:i] + w[i] + w[i:], (w[:i] + w[i + 1] + w[i] + w[i + 2 :]) if i + 1 < len(w) else w):
+                if cand and cand not in declared and cand not in out:
+                    out.append(cand)
+    return out
 
 
 def _object_nodes(j, path=()):
